@@ -36,7 +36,7 @@ func convertLineInto(ex *currency.ExchangeRate, line *Line) *Line {
 	// Use alt price if available
 	altFound := false
 	for i, ap := range l2i.AltPrices {
-		if ap.Currency == ex.To {
+		if ap != nil && ap.Currency == ex.To {
 			price = ap.Value
 			// remove this alt price from the list
 			l2i.AltPrices = append(l2i.AltPrices[:i], l2i.AltPrices[i+1:]...)
